@@ -782,7 +782,12 @@ class StubsStringGenerator:
                     has_named_type = True
 
             if len(literal_data) >= 2:
-                all_literals = [literal_type for literal in literal_data for literal_type in literal["literals"]]
+                # Union items have to be unique (True and 1 are different literals)
+                all_literals: list = []
+                for literal in literal_data:
+                    for literal_type in literal["literals"]:
+                        if not any(type(it) is type(literal_type) and it == literal_type for it in all_literals):
+                            all_literals.append(literal_type)
 
                 # We overwrite the old types of the union with the joined literal types
                 type_data["types"] = other_type_data
